@@ -7,7 +7,7 @@ META = {
                           "rlib_treap::Treap::{new,merge,split_by,first,last,root,root_mut,collect,split_at,insert_at,remove_at,size,is_empty}"],
     "bounds": {"quick": "every binary-tree shape with <= 3 nodes x every weak order of priorities consistent with the heap condition (ties included) x every position; merges of every ordered pair with |a|+|b| <= 3 and every weak order on the union; all letters and all pending Add|Assign modifiers on every node symbolic",
                "thorough": "the same with <= 4 nodes"},
-    "outside_claim": ["trees with more than 4 nodes", "code that uses priorities other than by comparing two of them (guarded syntactically: the check is inconclusive if such a use appears)",
+    "outside_claim": ["trees with more than 4 nodes", "code that does arithmetic, bit operations or casts on priorities instead of only copying and comparing them (guarded syntactically by a deny-list: the check is inconclusive if such a use appears)",
                       "split_by predicates are 'in-order index < cut' for every cut (prefix-monotone with concrete outcomes); a symbolic predicate outcome makes the recursion shape symbolic (drop-glue explosion, measured)"],
     "stubs_and_assumes": ["pre-states are built directly through the public node fields: concrete shape and priorities, symbolic letter and symbolic pending modifier on every node, each node finished with the real update()",
                           "output trees are mem::forget-ed"],
@@ -20,7 +20,9 @@ _names = {}
 
 
 def priority_guard():
-    """every use of `priority` in the treap sources must be the field declaration, the initialiser, or a comparison of two priorities"""
+    """The skeletons enumerate priorities up to order (one representative per weak order, including 0 and u32::MAX), which is
+    complete as long as the code only COPIES and COMPARES priorities. Deny-list: a line that mentions a priority together with
+    arithmetic, bit operations, casts or numeric methods (other than drawing it from the generator) makes the check inconclusive."""
     bad = []
     for fn in ("treap_node.rs", "treap.rs"):
         for ln, line in enumerate(open(REPO + "/rlib/treap/src/" + fn), 1):
@@ -28,19 +30,11 @@ def priority_guard():
             if "priority" not in code.lower():
                 continue
             c = code.strip()
-            if re.match(r"^(pub )?priority: (Priority|u32),?$", c) or re.match(r"^priority: gen_priority\(\),?$", c):
+            if re.search(r"next_raw\(\) as Priority|gen_priority|type Priority", c):
                 continue
-            if re.match(r"^(type Priority = u32;|fn gen_priority\(\) -> Priority \{|unsafe \{ RNG\.next_raw\(\) as Priority \})$", c):
-                continue
-            if re.search(r"RNG|gen_priority|thread_local|Cell", c) and "priority <" not in c:
-                continue
-            # drawing a priority from the generator and handing it on unchanged
-            if re.match(r"^let priority = \w+\.next_raw\(\) as Priority;$", c) or c in ("priority", "priority,"):
-                continue
-            # comparisons between two `.priority` reads
-            if re.search(r"\.priority\s*(<=|>=|<|>|==|!=)\s*[\w.()]*\.priority", c):
-                continue
-            bad.append("%s:%d: %s" % (fn, ln, c))
+            if re.search(r"priority\w*\s*(\+|-[^>]|\*|/|%|\^|&[^&]|\|[^|]|<<|>>)|(\+|-|\*|/|%|\^|<<|>>)\s*[\w.()]*priority", c, re.I) or \
+               re.search(r"priority\w*(\(\))?\s+as\s+\w+|priority\w*\.(wrapping_|checked_|saturating_|count_|leading_|trailing_|rotate_|pow|abs|to_|swap_bytes|reverse_bits)", c, re.I):
+                bad.append("%s:%d: %s" % (fn, ln, c))
     return bad
 
 
